@@ -9,11 +9,14 @@ GenList(i) == IF "ngens" \in DOMAIN i THEN SubSeq(i.gens, 1, i.ngens) ELSE i.gen
 ZeroData(k) == Zeros(32 * (1 + k))
 
 \* ---- specified results ------------------------------------------------------------------------------
+\* object history ("dirty": pre-filled object, "prior": another string parsed into the same object first) must not show:
+\* parse fully determines the object as far as the API can observe it
+WithPrior(i, r) == IF "prior" \in DOMAIN i THEN r @@ [ prior_ret |-> B2I(SjParse(i.prior).ok) ] ELSE r
 OutParse(i) ==
   LET p == SjParse(i.b) IN
-  IF ~p.ok THEN [ ret |-> 0, icb |-> 0 ]
-  ELSE [ ret |-> 1, nin |-> p.n, nused |-> SjPopcount(p.bitmap), ssize |-> Len(i.b),
-         sret |-> 1, ser |-> i.b, sret_short |-> 0, icb |-> 0 ]
+  WithPrior(i, IF ~p.ok THEN [ ret |-> 0, icb |-> 0 ]
+               ELSE [ ret |-> 1, nin |-> p.n, nused |-> SjPopcount(p.bitmap), ssize |-> Len(i.b),
+                      sret |-> 1, ser |-> i.b, sret_short |-> 0, icb |-> 0 ])
 
 \* allocate_initialized promises a NULL pointer on failure
 WithNull(i, r, v) == IF "alloc" \in DOMAIN i /\ i.alloc = 1 THEN r @@ [ null |-> v ] ELSE r
@@ -43,9 +46,10 @@ OutGenerate(i) ==
 
 OutVerify(i) ==
   LET p == SjParse(i.proof) IN
-  IF ~p.ok THEN [ pret |-> 0, ret |-> 0, icb |-> 0 ]
-  ELSE [ pret |-> 1, nin |-> p.n, nused |-> SjPopcount(p.bitmap), icb |-> 0,
-         ret |-> B2I(SjVerify(p.n, p.bitmap, p.data, Pts(GenList(i)), SjParseGen(i.gout)[2])) ]
+  WithPrior(i, IF ~p.ok THEN [ pret |-> 0, ret |-> 0, icb |-> 0 ]
+               ELSE [ pret |-> 1, nin |-> p.n, nused |-> SjPopcount(p.bitmap), icb |-> 0,
+                      ssize |-> Len(i.proof), sret |-> 1, ser |-> i.proof, sret_short |-> 0,
+                      ret |-> B2I(SjVerify(p.n, p.bitmap, p.data, Pts(GenList(i)), SjParseGen(i.gout)[2])) ])
 
 Out(ev) == CASE ev.e = "SjParse" -> OutParse(ev.in) [] ev.e = "SjInit" -> OutInit(ev.in)
              [] ev.e = "SjGenerate" -> OutGenerate(ev.in) [] ev.e = "SjVerify" -> OutVerify(ev.in)
@@ -171,6 +175,8 @@ PickCase(c) ==
   \/ \E b \in 1..(IF Thorough THEN 5 ELSE 4), mut \in 0..17 : (Thorough \/ b \in {1, 3} \/ (b = 2 /\ mut \in {0, 5, 9, 10, 13}) \/ (b = 4 /\ mut \in {0, 2, 6, 13, 15})) /\ c = << "verify", b, mut >>
   \/ \E bit \in 0..(IF Thorough THEN 791 ELSE 535) : c = << "flip", bit >>
   \/ \E n \in {2, 3}, mut \in 0..6 : c = << "forge", n, mut >>
+  \/ \E f \in {0, 1, 3, 8, 9, 250, 255, 256}, pat \in 0..2, hist \in 1..2 : c = << "dirty", 0, f, pat, hist >>
+  \/ \E b \in {1, 3}, mut \in {0, 1, 14}, hist \in 1..2 : c = << "dirty", 1, b, mut, hist >>
   \/ \E n \in 1..3 : \E mask \in 1..(2 ^ n - 1) : \E m \in MaskSet(n, mask) : c = << "infring", n, mask, m >>
 
 ExpandInit(n, matched, nuse, mi, sd, al) ==
@@ -271,6 +277,14 @@ ExpandInfRing(n, used, m) ==
       e0   == Sha256Hash(f[2] \o msg)
   IN  SV(SjSerialize(n, bm, e0 \o Flatten([i \in 1..k |-> Scalar32(ss[i])])), GenBytes(pts), SjSerGen(OutPt))
 
+\* object history: the string is parsed into an object that is pre-filled with 0xff (hist 1) or that held a 256-of-256 proof
+\* before (hist 2); parse writes only ceil(n/8) bitmap bytes, so anything that looks at the rest of the bitmap goes wrong
+Prior256 == << 0, 1 >> \o Rep(255, 32) \o [j \in 1..(32 * 257) |-> (j * 13) % 256]
+WithHist(x, hist) == [ e |-> x.e, in |-> IF hist = 1 THEN x.in @@ [ dirty |-> 1 ] ELSE x.in @@ [ prior |-> Prior256 ] ]
+ExpandDirty(kind, a, b, hist) ==
+  IF kind = 0 THEN WithHist([ e |-> "SjParse", in |-> [ b |-> ParseString(a, b, 40) ] ], hist)
+  ELSE WithHist(ExpandVerify(a, b), hist)
+
 \* the proof whose every bit is flipped: constants (evaluated once per TLC run, not once per flip)
 FlipBase == IF Thorough THEN << 2, {0, 1}, 1 >> ELSE << 2, {1}, 1 >>
 FlipProof == HonestProof(FlipBase[1], FlipBase[2], FlipBase[3])
@@ -288,6 +302,7 @@ Expand(c) ==
     [] c[1] = "verify" -> ExpandVerify(c[2], c[3])
     [] c[1] = "flip" -> SV(FlipBit(FlipProof, c[2]), FlipGens, SjSerGen(OutPt))
     [] c[1] = "forge" -> ExpandForge(c[2], c[3])
+    [] c[1] = "dirty" -> ExpandDirty(c[2], c[3], c[4], c[5])
     [] c[1] = "infring" -> ExpandInfRing(c[2], MaskSet(c[2], c[3]), c[4])
 
 -----------------------------------------------------------------------------
